@@ -152,4 +152,66 @@ end
 
 def Src.beforeFlatB (s : Src) : Bool := allBeforeFlatB s.exprs
 
+/-! ### comment-free files: the tree of the output (`C06.frag_fixed_point_comment_free`) -/
+
+mutual
+def Cst.cf : Cst → Bool
+  | .leaf _ _ => true
+  | .list its _ => its.cf
+  | .set _ _ its _ => its.cf
+def Items.cf : Items → Bool
+  | .nil => true
+  | .cmt _ _ _ => false
+  | .elem _ c rest => c.cf && rest.cf
+  | .bind _ _ c1 _ c2 _ v c3 _ rest => c1.isEmpty && c2.isEmpty && c3.isEmpty && v.cf && rest.cf
+end
+
+/-- the extra line break a blank line in the gap leaves behind -/
+def blankGap (g : Text) : Text := if gapHasEmptyLineOffsets g then ['\n'] else []
+
+/-- line break, optional blank line, indentation -/
+def vgap (g : Text) (k : Nat) : Text := '\n' :: blankGap g ++ spaces k
+
+mutual
+/-- what the round trip makes of a comment-free tree whose first line is indented by `i` -/
+def Cst.norm : Cst → Nat → Cst
+  | .leaf k t, _ => .leaf k t
+  | .list its cg, i =>
+    if its.isNil then
+      (if gapHasEmptyLineOffsets cg then .list .nil (vgap cg i) else .list .nil [' '])
+    else if containsNL (its.flatten ++ cg) then .list (its.normML (i + 2)) (vgap cg i)
+    else .list (its.normFlat i) [' ']
+  | .set r rg its cg, i =>
+    if its.isNil then
+      (if gapHasEmptyLineOffsets cg then .set r (if r then [' '] else []) .nil (vgap cg i)
+       else .set r (if r then [' '] else []) .nil [' '])
+    else if containsNL ((if r then rg else []) ++ its.flatten ++ cg) then
+      .set r (if r then [' '] else []) (its.normML (i + 2)) (vgap cg i)
+    else .set r (if r then [' '] else []) (its.normFlat (i + 2)) [' ']
+/-- items of a container that spans several lines, one per line at indentation `j` -/
+def Items.normML : Items → Nat → Items
+  | .nil, _ => .nil
+  | .cmt _ _ rest, j => rest.normML j
+  | .elem g c rest, j => .elem (vgap g j) (c.norm j) (rest.normML j)
+  | .bind g n _ _ _ g2 v _ _ rest, j =>
+    if containsNL g2 then
+      .bind (vgap g j) n [] [' '] [] (vgap g2 (indentFromGap g2)) (v.norm (indentFromGap g2)) [] [] (rest.normML j)
+    else .bind (vgap g j) n [] [' '] [] [' '] (v.norm j) [] [] (rest.normML j)
+/-- items of a container on one line -/
+def Items.normFlat : Items → Nat → Items
+  | .nil, _ => .nil
+  | .cmt _ _ rest, j => rest.normFlat j
+  | .elem _ c rest, j => .elem [' '] (c.norm j) (rest.normFlat j)
+  | .bind _ n _ _ _ _ v _ _ rest, j => .bind [' '] n [] [' '] [] [' '] (v.norm j) [] [] (rest.normFlat j)
+end
+
+/-- the whole file -/
+def File.norm (f : File) : File :=
+  match f.items with
+  | .elem _ c .nil =>
+    { items := .elem [] (c.norm 0) .nil,
+      endGap := if !containsNL f.endGap then [] else if gapHasEmptyLineOffsets f.endGap then ['\n', '\n'] else ['\n'] }
+  | _ => f
+
+
 end Nima.Frag
